@@ -63,3 +63,9 @@ cfg('genplain5_t', extra_lines=GEN, inv=['Inv_Conservation'], **dict(PLAIN5, Sch
 TIE = dict(Kind='"plain"', CacheSize=4, Strands='{0}', Sites='{0,1,2,3}', Lens='{1, 2}', Umis='{0}', MaxFrags=4, Poolings='{0}')
 cfg('c07tie_q', **dict(TIE, Scheds='{1000, 2}', Poolings='{0, 1}'))
 cfg('gentie_q', extra_lines=GEN, inv=['Inv_Conservation'], **dict(TIE, Scheds='{2}'))
+
+# paired-end release order (by the second mate): a molecule opened by A, joined through an end match by B that starts further
+# upstream, then C matching only via B's start.  plain, cache 8, lengths {2,3,4}, release position = end - 1
+UP = dict(Kind='"plain"', CacheSize=8, ReadLens='{1}', Strands='{0}', Sites='{0,1}', Lens='{2, 3, 4}', Umis='{0}', MaxFrags=4)
+cfg('c07upstream_q', **dict(UP, Scheds='{1000, 0}', Poolings='{0, 1}'))
+cfg('genupstream_q', extra_lines=GEN, inv=['Inv_Conservation'], **dict(UP, Scheds='{0}', Poolings='{0}'))
